@@ -301,6 +301,35 @@ def check_pairs(res: Result, dim, sa, sb, plist, backend, flavor="generic"):
                 for i in bad[:3]:
                     viol("form_differs[numpy.isclose]", i, f"numpy.isclose = {r[i]}, .isclose = {ic[i]}", {"rtol": rtol, "atol": atol})
                 tally(n - len(bad))
+        # tolerances passed by position, in the documented order (other, rtol, atol)
+        pos = [("method.isclose(b, rtol, atol)", lambda x, y: x.isclose(y, rtol, atol))]
+        if backend in ("NP", "NP+extra"):
+            pos.append(("numpy.isclose(a, b, rtol, atol)", lambda x, y: np.isclose(x, y, rtol, atol)))
+        for pname, pf in pos:
+            r = run(pf, va, vb)
+            if isinstance(r, tuple):
+                viol(f"form_raises[{pname.split('(')[0]} positional]", 0, f"{pname} raised {r[1]}", {"rtol": rtol, "atol": atol})
+            else:
+                bad = [i for i in range(n) if r[i] != ic[i]]
+                for i in bad[:3]:
+                    viol(f"form_differs[{pname.split('(')[0]} positional]", i, f"{pname} = {r[i]}, with keywords = {ic[i]}", {"rtol": rtol, "atol": atol})
+                tally(n - len(bad))
+        if backend in ("NP", "AKA", "NP+extra", "AKA+extra"):
+            res.transitions += 1
+            try:
+                alp = bool(va.allclose(vb, rtol, atol))
+                if alp != all(ic):
+                    viol("allclose_positional", None, f"allclose(b, {rtol}, {atol}) = {alp} but all(isclose) = {all(ic)}", {"rtol": rtol, "atol": atol})
+                else:
+                    tally(1)
+                if backend in ("NP", "NP+extra"):
+                    alp2 = bool(np.allclose(va, vb, rtol, atol))
+                    if alp2 != all(ic):
+                        viol("form_differs[numpy.allclose positional]", None, f"numpy.allclose(a, b, {rtol}, {atol}) = {alp2} but all(isclose) = {all(ic)}", {"rtol": rtol, "atol": atol})
+                    else:
+                        tally(1)
+            except Exception as e:  # noqa: BLE001
+                viol("raises", 0, f"allclose with positional tolerances raised {type(e).__name__}: {e}", {"form": "allclose positional"})
         if backend in ("NP", "AKA", "NP+extra", "AKA+extra"):
             res.transitions += 1
             try:
